@@ -101,7 +101,7 @@ class PromiseType final : public PromiseTypeBase<V, E, Lazy, Shared> {
     return this->Add(1);
   }
   std::size_t GetRef() noexcept final {
-    return this->Get();
+    return this->Get(std::memory_order_acquire);
   }
   void DecRef() noexcept final {
     this->Sub(1);
